@@ -252,6 +252,27 @@ func newReadOnlyProbeSys(r *vcore.Run, u *universe, cfg alphabetConfig) *regSys 
 		if after := dump(); after != before {
 			s.r.Violate("readonly", "C14/ReadOnly-wrapper/backend-changed-by-reads", s.caseOf(nil), "backend unchanged", firstDiff(before, after))
 		}
+		// The sweeps above have already read every name directly. A registry in the same state that
+		// nobody has read from yet (the history replayed, nothing else) must not be changed by reads
+		// through the wrapper either - including reads of repositories that do not exist.
+		twin := newMemSys(s.r, "C14", s.u, cfg, false)
+		for _, h := range s.hist {
+			twin.Apply(h, false)
+		}
+		tb := twin.raw.(*ocimem.Registry)
+		dumpT := func() string {
+			d := vstate.NewDumper()
+			d.Add("reg", tb)
+			return d.String()
+		}
+		b0 := dumpT()
+		tro := ocifilter.ReadOnly(tb)
+		for _, q := range s.queries {
+			runQuery(s.ctx, tro, q)
+		}
+		if b1 := dumpT(); b1 != b0 {
+			s.r.Violate("readonly", "C14/ReadOnly-wrapper/unread-backend-changed-by-reads", s.caseOf(nil), "a registry nobody has read from is unchanged by reads through the read-only wrapper", firstDiff(b0, b1))
+		}
 	}
 	return s
 }
